@@ -84,7 +84,7 @@ def op_strategy(draw):
         op.update(mode=draw(st.sampled_from(["seq", "seq", "concurrent", "concurrent"])),
                   perm=draw(st.lists(st.integers(0, 40), max_size=12)),
                   choices=draw(st.lists(st.integers(0, 11), max_size=160)),
-                  sticky=draw(st.booleans()),
+                  sticky=draw(st.booleans()), entry=draw(st.sampled_from(["update_history", "status_update"])),
                   choices_seed=draw(st.sampled_from([None, None, draw(st.integers(0, 2 ** 32))])),
                   dup=draw(st.sampled_from([None, None, None, "dup", "stale"])),
                   burst=draw(st.sampled_from([None, None, {"sel": draw(st.integers(0, 20)), "k": draw(st.integers(2, 3)),
@@ -94,8 +94,9 @@ def op_strategy(draw):
 
 def case_strategy(tier):
     n = 25 if tier == "quick" else 45
-    return st.builds(lambda ops, safe: {"ops": ops, "only_template_scripts": safe},
-                     st.lists(op_strategy(), min_size=3, max_size=n), st.sampled_from([False, False, True]))
+    return st.builds(lambda ops, safe, mu: {"ops": ops, "only_template_scripts": safe, "max_uses": mu},
+                     st.lists(op_strategy(), min_size=3, max_size=n), st.sampled_from([False, False, True]),
+                     st.sampled_from([1, 1, 2, 3]))
 
 
 # ---- chain model -----------------------------------------------------------------------------------------------
@@ -225,18 +226,23 @@ async def fresh_env():
         env.bg_errors = []
         orig_add = env.ledger._update_tasks.add
 
+        env.spawned = []
+
         def add(coro):
             async def wrapper():
                 try:
                     return await coro
                 except Exception as e:
                     env.bg_errors.append(e)
-            return orig_add(wrapper())
+            t = orig_add(wrapper())
+            env.spawned.append(t)
+            return t
         env.ledger._update_tasks.add = add
         _ENV[id(loop)] = env
     else:
         env.ledger.network = StubNetwork(Chain(), env.ledger)
         env.bg_errors.clear()
+        del env.spawned[:]
         def _wipe(conn):
             for t in ("txi", "txo", "tx", "account_address", "pubkey_address"):
                 conn.execute("delete from " + t)
@@ -291,6 +297,12 @@ async def run_async(case, out):
     model = Model(env)
     _random.seed(0)
     gaps = {0: GAP_R, 1: GAP_C}
+    # configuration: how often one address may be handed out (gap maintenance must not depend on it)
+    mu = case.get("max_uses", 1)
+    for acc in env.accounts[:2]:
+        acc.receiving.maximum_uses_per_address = mu
+        acc.change.maximum_uses_per_address = mu
+    out.label("max_uses:%d" % mu)
     last_used = {(a, c): -1 for a in (0, 1) for c in (0, 1)}
     owner = {}            # hash160 -> (acct, chain, n) for every address the model ever paid to
     ext_counter = [0]
@@ -392,7 +404,15 @@ async def run_async(case, out):
                         send = s
                         if op["dup"] == "stale" and delivered.get(addr) is not None:
                             await ledger.update_history(addr, delivered[addr])   # stale notification first
-                        await ledger.update_history(addr, send)
+                        if op.get("entry") == "status_update":
+                            # the wallet's real entry point for server notifications
+                            ledger.process_status_update((addr, send))
+                            await settle(env)
+                            if env.bg_errors:
+                                raise env.bg_errors[0]
+                            out.label("via_process_status_update")
+                        else:
+                            await ledger.update_history(addr, send)
                         if op["dup"] == "dup":
                             await ledger.update_history(addr, send)
                         delivered[addr] = s
@@ -428,6 +448,14 @@ async def run_async(case, out):
 
                             async def notifier(j):
                                 await events[j].wait()
+                                if burst.get("entry") == "status_update":
+                                    n0 = len(env.spawned)
+                                    ledger.process_status_update((burst_addr, statuses[j]))
+                                    if len(env.spawned) > n0:
+                                        # the task the ledger spawned inherits this notifier's place in the schedule
+                                        gate.task_of[env.spawned[-1]] = gate.task_of[asyncio.current_task()]
+                                        return await env.spawned[-1]
+                                    return None
                                 return await ledger.update_history(burst_addr, statuses[j])
 
                             async def noop():
@@ -625,13 +653,14 @@ def burst_case(draw, tier="quick"):
     ops.append({"op": "deliver", "mode": "concurrent", "perm": draw(st.lists(st.integers(0, 5), max_size=3)),
                 "choices": [], "choices_seed": draw(st.integers(0, 2 ** 32)), "dup": None,
                 "sticky": draw(st.sampled_from([True, True, True, False])),
-                "burst": {"sel": draw(st.integers(0, 3)), "k": draw(st.integers(2, 3)), "amount": draw(st.integers(0, 10 ** 6))}})
-    return {"ops": ops, "only_template_scripts": True}
+                "burst": {"sel": draw(st.integers(0, 3)), "k": draw(st.integers(2, 3)), "amount": draw(st.integers(0, 10 ** 6)),
+                          "entry": draw(st.sampled_from(["update_history", "status_update"]))}})
+    return {"ops": ops, "only_template_scripts": True, "max_uses": draw(st.sampled_from([1, 1, 2, 3]))}
 
 
 PARTS = [
     Part("burst", burst_case, run_case, 300, 3000, quick_shards=8, thorough_shards=16, essential=("burst_same_address",)),
     Part("sync", case_strategy, run_case, 300, 3000, quick_shards=8, thorough_shards=16,
          essential=("concurrent", "spend", "claim", "support", "abandon", "mine", "fund_gap3", "spend_unconfirmed_parent",
-                    "third:multisig", "third:random", "single_key_account", "burst_same_address")),
+                    "third:multisig", "third:random", "single_key_account", "burst_same_address", "max_uses:2", "via_process_status_update")),
 ]
